@@ -20,14 +20,16 @@ def harnesses():
     for m in re.finditer(r"#\[kani::proof\](?:\s*#\[kani::unwind\(\d+\)\])?\s*fn\s+([a-z0-9_]+)\s*\(", src):
         out["C18" if m.start() > c18_start else "C12"].append(m.group(1))
     # macro-generated scalar harnesses
-    for m in re.finditer(r"scalar!\(\w+, \d+, (\w+), (\w+), (\w+)\);", src):
+    for m in re.finditer(r"scalar!\(\w+, \d+, (\w+), (\w+), (\w+), (\w+)\);", src):
         out["C12"].extend(m.groups())
+    for m in re.finditer(r"tuple_rt!\((\w+),", src):
+        out["C12"].append(m.group(1))
     out["C12"] = [h for h in out["C12"] if not h.startswith("$")]
     return out
 
 
 def run_kani(names, features, timeout, jobs=12):
-    cmd = ["cargo", "kani", "--output-format", "terse", "-j", str(jobs)]
+    cmd = ["cargo", "kani", "--output-format", "terse", "-j", str(jobs), "-Z", "unstable-options", "--harness-timeout", "240s"]
     if features:
         cmd += ["--features", features]
     for n in names:
